@@ -348,7 +348,21 @@ def getitem(interp, obj, idx):
             elif not elems and len(blks) == 1 and interp.ctx.valid(ops.elem_term(blks[0].n) == 1):
                 one = ops.refine_to_elements(interp.ctx, blks[0], 1)
             else:
-                raise Unsupported("element access: could not isolate the element")
+                # case split on which piece holds the single element (the pieces together have length 1)
+                found = None
+                for e in one:
+                    if not isinstance(e, Blk):
+                        found = [e]
+                        break
+                    if interp.ctx.branch(ops.elem_term(e.n) == 0):
+                        continue
+                    if not interp.ctx.valid(ops.elem_term(e.n) == 1):
+                        raise Unsupported("element access: could not isolate the element")
+                    found = ops.refine_to_elements(interp.ctx, e, 1)
+                    break
+                if found is None:
+                    raise Unsupported("element access: could not isolate the element")
+                one = found
         return wrap_elem(one[0])
     if isinstance(obj, (PyList, PyDeque)) or isinstance(obj, tuple):
         items = obj if isinstance(obj, tuple) else obj.items
